@@ -70,7 +70,9 @@ CACHE_STATES = ["empty", "empty", "warm", "stale", "stale+source-missing", "warm
                 "warm+source-changed"]
 POLICIES = [{"kind": "random"}, {"kind": "random"}, {"kind": "pct", "d": 1}, {"kind": "pct", "d": 2},
             {"kind": "pct", "d": 3}, {"kind": "run-to-block"}, {"kind": "round-robin"},
-            {"kind": "starve", "task": "M"}, {"kind": "starve", "task": "L1"}]
+            {"kind": "starve", "task": "M"}, {"kind": "starve", "task": "L1"},
+            {"kind": "pause-write", "n": 1}, {"kind": "pause-write", "n": 2},
+            {"kind": "pause-write", "n": 3}, {"kind": "pause-write", "n": 4}]
 
 
 def uid(name, k):
@@ -618,6 +620,21 @@ def run_script(case, mode, forced=None):
                         except Exception as exc:
                             res = ("exc", type(exc).__name__, str(exc)[:160])
                         hist["final_loads"][n] = res
+                    # ... and one per URL a template handler was asked for during the script
+                    hist["final_t_loads"] = {}
+                    for handler_name, opname in (("templ", "t_load"), ("templ2", "t2_load")):
+                        handler = world.__dict__.get(handler_name)
+                        asked = sorted(set(c["op"][1] for c in hist["calls"] if c["op"][0] == opname))
+                        for n in asked:
+                            if handler is None or n not in world.urls:
+                                continue
+                            try:
+                                res = ("ret", summarize(handler.load(world.urls[n])))
+                            except (S.SimDeadlock, S.SimStepCap, S.SimKilled):
+                                raise
+                            except Exception as exc:
+                                res = ("exc", type(exc).__name__, str(exc)[:160])
+                            hist["final_t_loads"]["%s %s" % (opname, n)] = res
                     if scheduler is not None:
                         scheduler.quiesce()
                 except S.SimDeadlock as exc:
@@ -932,6 +949,14 @@ def judge(case, hist, ref, scheduled):
             if key in seen and seen[key] != res[1]["token"]:
                 return dict(sig("load.same-object", "load", "other-object"),
                             message="load(%s) at quiescence returned another object than before" % n)
+    for what, res in sorted((hist.get("final_t_loads") or {}).items()):
+        opname, n = what.split(" ", 1)
+        if res[0] == "ret" and "token" in res[1]:
+            key = (opname[:2], n)
+            if key in seen and seen[key] != res[1]["token"]:
+                return dict(sig("load.same-object", opname, "other-object"),
+                            message="%s(%s) at quiescence returned another object than an earlier %s" %
+                            (opname, n, opname))
     # 5. failed fetches leave the cache untouched
     for n in hist["failed_fetch"]:
         if hist["cache_before"].get(n) != hist["cache_after"].get(n):
